@@ -20,7 +20,9 @@ class SkelPF:
         for o in self.names:
             o.sym = z3.Int(o.name)
         if repeated:
-            self.names[repeated[1]] = self.names[repeated[0]]
+            # (i, j): positions i and j carry one name; (i, j, k, ...): all of them do
+            for j in repeated[1:]:
+                self.names[j] = self.names[repeated[0]]
         self.time = z3.Real(f"time{t}")
         self.geo_lo = [z3.Real(f"glo{d}{t}") for d in range(nd)]
         self.geo_hi = [z3.Real(f"ghi{d}{t}") for d in range(nd)]
